@@ -58,7 +58,7 @@ KN = "; knowledge monitor Knowledge.tla (no term semantics, any width) validatin
 CHECKS["C11"]["tech"] = SOLVER_TECH + KN + "; refined cache model SolverCache.tla explored by TLC (refinement property + 4 invariants), its states x inputs replayed on the real class"
 CHECKS["C12"]["tech"] = SOLVER_TECH + KN + "; refined partition model SolverComposite.tla explored by TLC (refinement property + 5 invariants), its states x inputs replayed on the real class"
 solver("C13", "SolverReplacement (default and auto_replace=False), SolverHybrid in exact mode validated against the exact relation; SolverVSA and SolverHybrid(exact=False / approximate_first) against the over-approximation relation (never unsat on sat, never exclude a value, bounds on the right side).")
-CHECKS["C13"]["tech"] = SOLVER_TECH + KN
+CHECKS["C13"]["tech"] = SOLVER_TECH + KN + "; refined model SolverReplacement.tla (Term.tla semantics) explored by TLC (3 invariants, action property OnlyKnown, strict property refuted = the known finding), its states x inputs replayed on the real class with the replacement dictionary compared"
 solver("C14", "Branch-heavy histories on trees of up to 5 solver objects of every frontend class; isolation is per-id correctness in SolverAbs (Branch copies the model set, no later action on one id mentions the other); probe battery on every live id.")
 solver("C15", "merge (with and without ancestor), combine and split on solvers produced by random histories: TLC computes the documented model sets (union of condition_i /\\ models_i, intersection, variable-disjoint parts carrying every conjunct and jointly equivalent) and checks the results and all later answers of the results.")
 solver("C16", "Tracked Solver / SolverCacheless / SolverComposite histories with unsat_core(): TLC checks empty core on satisfiable sets, every element a constraint that was added (or currently held), and unsatisfiability of the conjunction of the core by enumeration.")
